@@ -13,3 +13,8 @@ def run(ctx):
     ctx.exhaustive = True
     if "REPLAY" in r["tags"]:
         ctx.replay("datatype", r["tags"]["REPLAY"])
+    ctx.rules.append("Dims: every Dimensions rectangle over a 3 x 3 grid (incl. end before start) x every position: "
+                     "contains and len (= number of contained positions) evaluated on calamine::Dimensions")
+    r = ctx.tlc("dt", "Dims", "Dims.cfg", workers=2, timeout=300)
+    if "REPLAY" in r["tags"]:
+        ctx.replay("dims", r["tags"]["REPLAY"])
